@@ -30,7 +30,7 @@ if __name__ != '__main__':
 GEN_MODULES = ['parallel']
 MODEL_TARGETS = ['model/M_Parallel.vo']
 PROOF_TARGETS = ['proofs/P_Parallel.vo', 'proofs/P_ParallelLoud.vo', 'proofs/P_ParallelTop.vo',
-                 'proofs/P_ParallelPerm.vo']
+                 'proofs/P_ParallelPerm.vo', 'proofs/P_ParallelFair.vo']
 LEVEL = 'proof'
 RULE = ('real-process runs of parallelize: ncpu 1..8 x 0..20 tasks x fast/slow assignments of the processes '
         '(incl. late end markers, log records), single faults (worker, task index, kind in raise / exit code / '
@@ -49,8 +49,9 @@ TRUSTED = [
     'numpy.array_split contract (checked here against numpy for n 0..40, k 1..10)',
     'RandomStateService abstract in C09_deterministic (St, draw, mk); the numpy generator itself is not modelled',
     'the fault-injection hook 4168e32 in worker_wrapper (guarded by ICECUBE_SKYLLH_VERIF=1)',
-    'check_structure: the order of the shared-state reads/writes assumed by the step granularity of the model is '
-    'checked on the AST of multiproc.py (7 syntactic checks, fail-closed)',
+    'statement-order facts (5 `order:` kernels: reads of shared state in the poll / drain loops, task loop before '
+    'rqueue.put in worker_wrapper, non-blocking status queue) and call counts (`ncalls:`) are read from the AST by the '
+    'translator and pinned by K_ lemmas; check_structure repeats 7 syntactic checks in the harness (fail-closed)',
 ]
 
 IMPORTS = ('From Coq Require Import ZArith List Bool. Import ListNotations.\n'
@@ -117,6 +118,11 @@ def _run_call(call, recs, state):
         from skyllh.core.random import RandomStateService
         rss = RandomStateService(seed=call['seed'])
     func = _task_b if call.get('func') == 'b' else _task
+    from skyllh.core import session
+    if call.get('interactive'):      # progress bar + status queue path
+        session.enable_interactive_session()
+    else:
+        session.disable_interactive_session()
     t0 = time.time()
     try:
         if call.get('trials'):
@@ -332,12 +338,13 @@ def offsets(sizes):
     return out
 
 
-def mk_case(ncpu, ntasks, kind, slow=(), late=(), nlog=0, faults=(), seed=None, trials=False, bulk=()):
+def mk_case(ncpu, ntasks, kind, slow=(), late=(), nlog=0, faults=(), seed=None, trials=False, bulk=(),
+            interactive=False):
     """slow: pids sleeping at their first task; late: worker pids sleeping between result and end marker;
     faults: dicts {pid, task (local index | None), kind: raise|exit|kill|after, code, channel: hook|func}"""
     case = {'ncpu': ncpu, 'ntasks': ntasks, 'kind': kind, 'slow': sorted(slow), 'late': sorted(late),
             'nlog': nlog, 'faults': [dict(f) for f in faults], 'seed': seed, 'trials': bool(trials),
-            'bulk': sorted(bulk)}
+            'bulk': sorted(bulk), 'interactive': bool(interactive)}
     specs, plan = {}, []
     if trials:       # Analysis.do_trials builds the argument list itself: delays only through the hook
         case['slow'] = sorted(p for p in slow if p > 0)
@@ -496,7 +503,7 @@ def canon_model(v):
 
 # ---- predicates (independent of the model)
 
-PUBKEYS = ('ncpu', 'ntasks', 'kind', 'slow', 'late', 'nlog', 'faults', 'seed', 'trials', 'bulk', 'func', 'pause',
+PUBKEYS = ('ncpu', 'ntasks', 'kind', 'slow', 'late', 'nlog', 'faults', 'seed', 'trials', 'bulk', 'interactive', 'func', 'pause',
            'reuse_args', '_seq', 'plan', 'specs')
 
 
@@ -610,6 +617,18 @@ def gen_cases(ctx):
                 cases.append(mk_case(k, n, 'grid', slow=slow, late=late, nlog=rng.choice([0, 0, 1, 2])))
     for (k, n) in ((2, 2), (3, 7), (4, 4)) if not th else [(k, n) for k in (2, 3, 4, 6) for n in (2, 5, 9)]:
         cases.append(mk_case(k, n, 'grid-bulk', bulk=[rng.randrange(1, k)], late=[rng.randrange(1, k)]))
+    # interactive session: progress bar and status queue; the flood case of fix 10bab65 (the worker finishes
+    # thousands of tasks - more status records than the pipe holds - after the master finished its own)
+    cases.append(mk_case(2, 10000, 'corpus-status-flood', slow=[1], interactive=True))
+    for _ in range(ctx.budget(10, 80)):
+        k, n = rng.randint(1, 6), rng.randint(1, 20)
+        fs = []
+        if k > 1 and n >= k and rng.random() < 0.5:
+            fk, ch, code = rng.choice([('raise', 'hook', 1), ('raise', 'func', 1), ('exit', 'hook', 1), ('exit', 'func', 3),
+                                       ('exit', 'hook', 0), ('kill', 'func', -9), ('after', 'hook', 1), ('after', 'hook', 0)])
+            fs = [{'pid': rng.randrange(1, k), 'task': None if fk == 'after' else 0, 'kind': fk, 'code': code, 'channel': ch}]
+        cases.append(mk_case(k, n, 'interactive', slow=rng.sample(range(k), rng.randint(0, k)), faults=fs,
+                             nlog=rng.choice([0, 1]), interactive=True))
     # B. single faults, exhaustively for small sizes, in two timing contexts
     sizes_b = [(2, 1), (2, 3), (3, 2), (3, 4), (3, 5), (4, 6), (5, 7)] if not th else \
         [(k, n) for k in range(2, 6) for n in range(1, 9)]
@@ -720,6 +739,8 @@ def gen_sequences(ctx):
         seqs.append({'name': 'changing-ntasks', 'seq': [C(3, n), C(3, n + 3), C(3, 1), C(3, n), C(1, n + 3), C(1, 2)]})
     seqs.append({'name': 'empty-in-between', 'seq': [C(3, 4), C(3, 0), C(3, 4, reuse_args=True), C(1, 0), C(1, 4)]})
     seqs.append({'name': 'bulk-then-free', 'seq': [C(2, 2, bulk=[1], late=[1]), C(2, 2), C(2, 3, func='b')]})
+    seqs.append({'name': 'interactive-then-batch', 'seq': [C(3, 7, interactive=True, slow=[1]), C(3, 7), C(3, 7, interactive=True, func='b'),
+                                                           C(1, 5, interactive=True), C(2, 5)]})
     for _ in range(ctx.budget(2, 10)):
         k, n = rng.randint(1, 4), rng.randint(2, 9)
         s1, s2 = rng.randrange(2 ** 31), rng.randrange(2 ** 31)
@@ -754,7 +775,7 @@ def judge_sequences(ctx, seqs, obs, nvariants):
         for ci, co in enumerate(o['calls']):
             c = dict(sq['seq'][ci])
             c['_seq'] = {'name': sq['name'], 'index': ci,
-                         'earlier_calls': [{k: x.get(k) for k in ('ncpu', 'ntasks', 'faults', 'slow', 'func', 'seed',
+                         'earlier_calls': [{k: x.get(k) for k in ('ncpu', 'ntasks', 'faults', 'slow', 'func', 'seed', 'interactive', 'late', 'kind',
                                                                   'reuse_args', 'pause', 'trials', 'nlog', 'bulk')}
                                            for x in sq['seq'][:ci]]}
             c['kind'] = f"seq:{sq['name']}#{ci}"
@@ -770,7 +791,7 @@ def judge(ctx, cases, obs, nvariants):
     for case, o in zip(cases, obs):
         oc = observe_class(case, o)
         classes.append(oc)
-        ctx.case({k: case.get(k) for k in ('ncpu', 'ntasks', 'slow', 'late', 'nlog', 'faults', 'seed', 'bulk', 'func', '_seq')},
+        ctx.case({k: case.get(k) for k in ('ncpu', 'ntasks', 'slow', 'late', 'nlog', 'faults', 'seed', 'bulk', 'interactive', 'func', '_seq')},
                  nontrivial=case['ntasks'] > 0)
         ctx.count('kind:' + case['kind'])
         ctx.count('outcome:' + (oc[1] if oc[0] == 'Fail' else oc[0]))
@@ -788,6 +809,9 @@ def judge(ctx, cases, obs, nvariants):
             ctx.violation(SITE, 'bad-arrival-record', 'a worker pid was gathered twice / is no worker pid',
                           case=case, impl=order)
             order = []
+        if case['ntasks'] > 400:
+            ctx.count('model-comparison-skipped-long-list')
+            continue
         es = model_exprs_for(case, order, ctx.rng, nvariants)
         for e in es:
             exprs.append(e)
@@ -968,7 +992,8 @@ def replay(ctx, rp):
         c = mk_case(d['ncpu'], d['ntasks'], d.get('kind', 'replay'), slow=d.get('slow') or (), late=d.get('late') or (),
                     nlog=d.get('nlog') or 0,
                     faults=[{k: v for k, v in f.items() if k != 'triggers'} for f in d.get('faults') or []],
-                    seed=d.get('seed'), trials=d.get('trials', False), bulk=d.get('bulk') or ())
+                    seed=d.get('seed'), trials=d.get('trials', False), bulk=d.get('bulk') or (),
+                    interactive=d.get('interactive', False))
         for x in ('func', 'pause', 'reuse_args'):
             if d.get(x) is not None:
                 c[x] = d[x]
@@ -981,7 +1006,8 @@ def replay(ctx, rp):
     c = mk_case(case['ncpu'], case['ntasks'], case.get('kind', 'replay'), slow=case.get('slow', ()),
                 late=case.get('late', ()), nlog=case.get('nlog', 0),
                 faults=[{k: v for k, v in f.items() if k != 'triggers'} for f in case.get('faults', [])],
-                seed=case.get('seed'), trials=case.get('trials', False), bulk=case.get('bulk', ()))
+                seed=case.get('seed'), trials=case.get('trials', False), bulk=case.get('bulk', ()),
+                interactive=case.get('interactive', False))
     cases = [c, c] if c['seed'] is not None else [c]
     obs = run_impl(cases, ctx.budget(20, 60), nproc=1)
     ctx.sample({'case': c, 'observed': obs[0]})
